@@ -220,9 +220,18 @@ pub fn strat_case(rng: &mut Rng, i: u64, o: &GenOpts) -> RCase {
         1 if o.supers => Alg::Super(f, 1 + (j % 3) as u8),
         _ => Alg::Conv(f),
     };
+    let (mut dw, mut dh) = (dw, dh);
     let crop = if o.crops && j % 4 == 1 && sw > 2 && sh > 1 {
-        // integer offset so that the pass starts inside the source
-        Crop::Box([1.0, (sh > 2) as u32 as f64, (sw - 1) as f64, (sh - (sh > 2) as u32) as f64])
+        // integer offset so that the pass starts inside the source; the single-pass classes stay single-pass:
+        // the dimension that is not resampled takes the size of the crop
+        let t0 = (sh > 2) as u32;
+        if dir == 0 {
+            dh = sh - t0;
+        }
+        if dir == 1 {
+            dw = sw - 1;
+        }
+        Crop::Box([1.0, t0 as f64, (sw - 1) as f64, (sh - t0) as f64])
     } else {
         Crop::None
     };
@@ -276,6 +285,16 @@ pub fn random_case(rng: &mut Rng, o: &GenOpts) -> RCase {
     if !o.fit {
         if let Crop::Fit(..) = crop {
             crop = Crop::None;
+        }
+    }
+    let (mut dw, mut dh) = (dw, dh);
+    if let Crop::Box(b) = crop {
+        // single-pass geometries with a crop offset: one destination dimension equals an integer crop dimension
+        if b[0] == b[0].round() && b[2] == b[2].round() && b[2] >= 1.0 && rng.chance(1, 5) {
+            dw = b[2] as u32;
+        }
+        if b[1] == b[1].round() && b[3] == b[3].round() && b[3] >= 1.0 && rng.chance(1, 5) {
+            dh = b[3] as u32;
         }
     }
     let use_alpha = match o.alpha_mode {
